@@ -28,4 +28,6 @@ struct VpWriter {
 };
 static inline QString vpSymString(int maxlen) { QString s; vp_sym_string(&s, maxlen); return s; }
 static inline QString vpSymStringNonEmpty(int maxlen) { QString s; vp_sym_string_nonempty(&s, maxlen); return s; }
+// string whose emptiness is the i-th structural choice (empty strings usually suppress an element/attribute)
+static inline QString vpSymStringCase(unsigned i, int maxlen) { return vp_case_bool(i) ? vpSymStringNonEmpty(maxlen) : QString(); }
 static inline QByteArray vpSymBytes(int maxlen) { QByteArray s; vp_sym_bytes(&s, maxlen); return s; }
